@@ -379,21 +379,8 @@ func lemmaGoAwayErrorRetryable() (ok bool) {
 //@   partial nopanic, pre
 //@   noframe
 
-// writeHeaders: one HEADERS frame first, then only CONTINUATION frames, all on the given stream
-// id, no fragment longer than maxFrameSize, END_HEADERS exactly on the last one.
-//
-//@ func (*ClientConn).writeHeaders(cc, streamID, endStream, maxFrameSize, hdrs) (err)
-//@   havoccalls except clientStream.cc, clientStream.ctx, clientStream.ID
-//@   havocs except clientStream.cc, clientStream.ctx, clientStream.ID
-//@   requires cc != nil && maxFrameSize > 0
-//@   ghost hf += 1 at call WriteHeaders
-//@   ghost cf += 1 at call WriteContinuation
-//@   loop 1 invariant maxFrameSize == old(maxFrameSize) && streamID == old(streamID) && (first <==> ghost(hf) == 0) && 0 <= ghost(hf) && ghost(hf) <= 1 && (first ==> ghost(cf) == 0)
-//@   assert at call WriteHeaders: ghost(hf) == 0 && ghost(cf) == 0 && $p.StreamID == streamID && len($p.BlockFragment) > 0 && len($p.BlockFragment) <= maxFrameSize && $p.EndStream == endStream && ($p.EndHeaders <==> len(hdrs) == 0)
-//@   assert at call WriteContinuation: ghost(hf) == 1 && $streamID == streamID && len($headerBlockFragment) > 0 && len($headerBlockFragment) <= maxFrameSize && ($endHeaders <==> len(hdrs) == 0)
-//@   ensures  ghost(hf) <= 1 && (ghost(cf) != 0 ==> ghost(hf) == 1)
-//@   partial nopanic
-//@   noframe
+// writeHeaders: contract in verif_c14.go (one HEADERS frame first, then only CONTINUATION frames on
+// the given stream id, contiguous pieces of at most maxFrameSize, END_HEADERS exactly on the last).
 
 // ---------------------------------------------------------------------------
 // C09: why the SETTINGS_INITIAL_WINDOW_SIZE adjustment never lets the client believe in more
